@@ -178,6 +178,10 @@ type TypeSystem struct {
 
 	computedRelations sync.Map
 
+	// validationCycleFree is only set while NewAndValidate runs: the relations already proven to be
+	// free of cycles, shared by the cycle tests of all relations of the model.
+	validationCycleFree map[string]struct{}
+
 	modelID                 string
 	schemaVersion           string
 	authorizationModelGraph *graph.AuthorizationModelGraph
@@ -1156,6 +1160,10 @@ func NewAndValidate(ctx context.Context, model *openfgav1.AuthorizationModel) (*
 
 	typedefsMap := t.typeDefinitions
 
+	// t is not shared with any other goroutine before this function returns.
+	t.validationCycleFree = map[string]struct{}{}
+	defer func() { t.validationCycleFree = nil }()
+
 	typeNames := make([]string, 0, len(typedefsMap))
 	for typeName := range typedefsMap {
 		typeNames = append(typeNames, typeName)
@@ -1525,7 +1533,14 @@ func (t *TypeSystem) HasCycle(objectType, relationName string) (bool, error) {
 		return false, err
 	}
 
-	return t.hasCycle(objectType, relationName, relation.GetRewrite(), visited, map[string]struct{}{})
+	// While a model is being validated every relation is tested in turn: relations already proven
+	// cycle-free by an earlier test are shared, otherwise a chain of n computed relations costs n^3.
+	acyclic := t.validationCycleFree
+	if acyclic == nil {
+		acyclic = map[string]struct{}{}
+	}
+
+	return t.hasCycle(objectType, relationName, relation.GetRewrite(), visited, acyclic)
 }
 
 // IsTuplesetRelation returns a boolean indicating if the provided relation is defined under a
